@@ -1299,8 +1299,8 @@ func (w *world) scripted(prop string, sc int, rng *mrand.Rand) {
 		rs := w.randomReqSpec(rng, "C17")
 		rs.method = "GET"
 		rs.origin = ""
-		if rs.accept == "application/json" {
-			rs.accept = ""
+		if rs.accept == "application/json" || (strings.Contains(rs.accept, "application/json") && sc%2 == 0) {
+			rs.accept = "" // (a browser: the answer to an unusable session is the login redirect, from which the healing login starts)
 		}
 		names := []string{}
 		for n := range w.jars[w.b] {
